@@ -34,6 +34,7 @@ type vbeh struct {
 	k     int
 	panic bool
 	mode  byte
+	slow  time.Duration // pause this long after reading half of the k bytes (a slow consumer; not part of the model)
 }
 
 func (b vbeh) String() string {
@@ -134,8 +135,16 @@ func (h *vrdHandler) HandleMessage(c *Client, msg Message) {
 	}
 	if msg.payload != nil {
 		buf := make([]byte, 32768)
+		paused := b.slow == 0
 		for took < b.k {
+			if !paused && took >= b.k/2 {
+				paused = true
+				time.Sleep(b.slow)
+			}
 			want := b.k - took
+			if !paused && want > b.k/2-took && b.k/2-took > 0 {
+				want = b.k/2 - took
+			}
 			if want > len(buf) {
 				want = len(buf)
 			}
